@@ -24,9 +24,14 @@ C15_Pickle(o) == o.accepted => (o.pickle_ok /\ o.pickle_after_run_clean)
 C15_Deps(o) == (o.accepted /\ Accepts(o.raw)) => o.deps = DepsOf(B(o))
 C07_Deterministic(o) == o.accepted => \A i \in DOMAIN o.variants : o.variants[i][2] = o.key
 C07_StorageAccepts(o) == o.accepted => o.storage_accepts
+(* every earlier case -- or, when the harness has grouped the observations by key string ("same_key"), every earlier case *)
+(* of the same group (whose key is re-checked here to be equal)                                                           *)
+Earlier(k) == IF "same_key" \in DOMAIN Obs[k] THEN {Obs[k].same_key[i] : i \in DOMAIN Obs[k].same_key} ELSE 1..(k - 1)
 C07_Distinct(k) == (Obs[k].accepted /\ Accepts(Obs[k].raw) /\ ~Obs[k].main_module_type) =>
-                     \A j \in 1..(k - 1) : (Obs[j].accepted /\ Accepts(Obs[j].raw) /\ ~Obs[j].main_module_type /\ Obs[j].key = Obs[k].key)
-                                              => B(Obs[j]) = B(Obs[k])
+                     \A j \in Earlier(k) :
+                        /\ "same_key" \in DOMAIN Obs[k] => (j < k /\ Obs[j].key = Obs[k].key)
+                        /\ (Obs[j].accepted /\ Accepts(Obs[j].raw) /\ ~Obs[j].main_module_type /\ Obs[j].key = Obs[k].key)
+                              => B(Obs[j]) = B(Obs[k])
 C09_Reconstruct(o) == o.accepted => o.recon_eq
 C09_ListedOnce(o) == o.accepted => /\ o.ran /\ o.listed_own = 1 /\ o.listed_elsewhere = 0
                                     /\ o.listed_key_ok /\ o.listed_meta_ok /\ o.listed_loads_stored
